@@ -16,24 +16,18 @@ def run_family(ctx, name: str, cases: list) -> dict:
     traces = [clientsim.run_schedule(cfg, sch, seed=ctx.seed * 7919 + i) for i, (cfg, sch) in enumerate(cases)]
     findings = []
     gaps = sorted({g for t in traces for g in t["gaps"]})
-    for off in range(0, len(traces), 3000):
-        part = traces[off : off + 3000]
-        f = ctx.tmp / f"client-{name}-{off}.json"
-        f.write_text(json.dumps(part))
-        r = ctx.tlc("TraceClient", workers=1, env={"TRACE_FILE": str(f)}, timeout=3000)
-        if "Model checking completed" not in r.stdout:
-            raise TLCFailure("trace validation did not complete:\n" + r.stdout[-3000:])
-        f.unlink()
-        diags = {(d[0] - 1, d[1]): d[2] for d in tlaval.extract_printed(r.stdout, "DIAG")}
-        ctx.traces_validated += len(part)
-        for a, b in re.findall(r'<<"REJECT", (\d+), (\d+)>>', r.stdout):
-            idx, line = int(a) - 1, int(b)
-            t = part[idx]
-            ds = diags.get((idx, line), [])
-            fields = sorted(min(ds, key=len)) if ds else ["unexplained"]
-            row = t["rows"][line - 1] if line - 1 < len(t["rows"]) else {}
-            findings.append({"fields": fields, "cause": row.get("c"), "cfg": t["cfg"], "schedule": cases[off + idx][1], "line": line,
-                             "rows": t["rows"][max(0, line - 8) : line]})
+    from vf import tracecheck
+
+    res = tracecheck.run_batch(ctx, "TraceClient", traces, batch=3000, tag=name)
+    for idx, line in res["rejected"]:
+        t = traces[idx]
+        ds = res["diags"].get((idx, line), [])
+        fields = sorted(min(ds, key=len)) if ds else ["unexplained"]
+        row = t["rows"][line - 1] if line - 1 < len(t["rows"]) else {}
+        findings.append({"fields": fields, "cause": row.get("c"), "cfg": t["cfg"], "schedule": cases[idx][1], "line": line, "rows": t["rows"][max(0, line - 8) : line]})
+    for idx, invname in res["invariant"]:
+        t = traces[idx]
+        findings.append({"fields": ["invariant:" + invname], "cause": "invariant", "cfg": t["cfg"], "schedule": cases[idx][1], "line": 0, "rows": t["rows"][-8:]})
     reach = {
         "sessions_established": sum(sum(1 for r in t["rows"] for d in r["dn"] if d[0] in ("finish", "connect") and d[1] == "ok") for t in traces),
         "starts_refused": sum(sum(1 for r in t["rows"] for d in r["dn"] if d[0] in ("start", "connect") and d[1] == "APIConnectionError" and r["c"] in ("UserStart", "UserConnect")) for t in traces),
